@@ -185,3 +185,18 @@ Print Assumptions C14_std_target.
 Print Assumptions C14_default_strict.
 Print Assumptions C14_default_cfg_strict.
 Print Assumptions C14_example_default.
+
+(* ---- the standard transport's decisions are the source's: Standard.openBase translated statement
+   by statement on this run (gen/decide.go -> GeneratedSkel.standard_open_base_code) ---- *)
+From Scrapli Require Import DecideLang GeneratedSkel Decide.
+
+(* for every configuration: the host-key policy installed (insecure ONLY when strict checking is
+   off; the known-hosts callback of the configured file otherwise; an error before dialling when
+   strict and no file) and the authentication methods offered, in order, are the model's *)
+Theorem C14_std_open_base_is_source : forall c ciphers kexs,
+  so_run (so_tests_of c ciphers kexs) =
+  Some (policy_kind (std_policy c),
+        match std_policy c with PErrNoFile => [] | _ => std_auth c end).
+Proof. exact standard_open_base_is_source. Qed.
+
+Print Assumptions C14_std_open_base_is_source.
